@@ -3,6 +3,7 @@ C11 line-protocol driver:  `lake env lean --run Sc3Verif/C11/Driver.lean < lines
 
   reset                         start a new case (prints `reset`)
   dims <nr> <nc> <nf>           number of routines / conditions / flow variables to print
+  extclock T|F                  the outside plays routines on the case's other clock (TempoClock(1) / AppClock)
   rt <id> <gen|fun> <inval|noinval> <act> ; <act> ; …      define a routine body
   x <external op>               run one external operation to completion, print one line:
         <result>|<log>|<snapshot>
@@ -68,8 +69,8 @@ def snapshot (m : M) (nr nc nf : Nat) : String :=
     let term := match R.terminal with
       | none => "-"
       | some v => fmtVal v
-    s!"r{i}={fmtSt R.state}/i{if R.pc.isSome then 1 else 0}/{fmtVal R.last}/{term}"
-  let q := "".intercalate (m.queue.map fun (t, r) => s!"({t},{r})")
+    s!"r{i}={fmtSt R.state}/i{if R.pc.isSome then 1 else 0}/{fmtVal R.last}/{term}/k{if m.clk i then 1 else 0}"
+  let q := "".intercalate (m.queue.map fun (t, k) => s!"({t},{k / 2}{if k % 2 == 1 then "*" else ""})")
   let cs := (List.range nc).map fun i =>
     let C := m.conds i
     s!"c{i}={fmtB C.test}[{fmtNats C.waiting}]"
@@ -160,6 +161,7 @@ partial def loop (h out : IO.FS.Stream) (s : DS) : IO Unit := do
   match ws with
   | [] => loop h out s
   | ["reset"] => out.putStrLn "reset"; loop h out {}
+  | ["extclock", b] => loop h out { s with m := { s.m with extClock := b == "T" } }
   | ["dims", a, b, c] =>
     match a.toNat?, b.toNat?, c.toNat? with
     | some a, some b, some c => loop h out { s with nr := a, nc := b, nf := c }
